@@ -613,6 +613,39 @@ static void free_(qaconf_t *qaconf) {
 
 #ifndef _DOXYGEN_SKIP
 
+/*
+ * Read one line like getline(), but carry on when the underlying read() was
+ * interrupted by a signal: an interrupted read is not the end of the file.
+ */
+static ssize_t _readline(char **buf, size_t *bufsize, FILE *fp) {
+    size_t len = 0;
+    for (;;) {
+        int c = fgetc(fp);
+        if (c == EOF) {
+            if (ferror(fp) && errno == EINTR) {
+                clearerr(fp);
+                continue;
+            }
+            break;
+        }
+        if (len + 2 > *bufsize) {
+            size_t newsize = (*bufsize > 0) ? *bufsize * 2 : 128;
+            char *newbuf = (char *) realloc(*buf, newsize);
+            if (newbuf == NULL)
+                return -1;
+            *buf = newbuf;
+            *bufsize = newsize;
+        }
+        (*buf)[len++] = (char) c;
+        if (c == '\n')
+            break;
+    }
+    if (len == 0)
+        return -1;
+    (*buf)[len] = '\0';
+    return (ssize_t) len;
+}
+
 #define ARGV_INIT_SIZE  (4)
 #define ARGV_INCR_STEP  (8)
 #define MAX_TYPECHECK   (5)
@@ -624,7 +657,7 @@ static int _parse_inline(qaconf_t *qaconf, FILE *fp, uint8_t flags,
     if (flags & QAC_CASEINSENSITIVE)
         cmpfunc = strcasecmp;
 
-    char *buf = NULL;  // line buffer, grown by getline(): no length limit
+    char *buf = NULL;  // line buffer, grown by _readline(): no length limit
     size_t bufsize = 0;
     bool doneloop = false;
     bool exception = false;
@@ -643,7 +676,7 @@ static int _parse_inline(qaconf_t *qaconf, FILE *fp, uint8_t flags,
         // callback data of this line; must be defined before any EXITLOOP
         qaconf_cbdata_t *cbdata = NULL;
 
-        if (getline(&buf, &bufsize, fp) < 0) {
+        if (_readline(&buf, &bufsize, fp) < 0) {
             // Check if section was opened and never closed
             if (cbdata_parent != NULL) {
                 EXITLOOP("<%s> section was not closed.", cbdata_parent->argv[0]);
